@@ -4,10 +4,17 @@ package c13
 import (
 	"context"
 	"fmt"
+	"math"
 	"math/rand/v2"
+	"sync/atomic"
 	"testing"
 	"testing/synctest"
 	"time"
+
+	"github.com/platinummonkey/go-concurrency-limits/core"
+	"github.com/platinummonkey/go-concurrency-limits/limit"
+	"github.com/platinummonkey/go-concurrency-limits/limiter"
+	"github.com/platinummonkey/go-concurrency-limits/strategy"
 
 	"verifharness/internal/blk"
 	"verifharness/internal/inject"
@@ -33,6 +40,9 @@ func kinds(r *rand.Rand, T time.Duration) []blk.Kind {
 		{Family: "queue", Ordering: "lifo", Evict: false, Backlog: 5, Timeout: T},
 		{Family: "queue", Ordering: "lifo", Evict: true, Backlog: 5, Timeout: T},
 		{Family: "queue", Ordering: "fifo", Evict: false, Backlog: 5, Timeout: T},
+		// backlog time-out disabled (negative): only a release or - with eviction - the end of the context ends the wait
+		{Family: "queue", Ordering: "fifo", Evict: true, Backlog: 5, Timeout: -1},
+		{Family: "queue", Ordering: "lifo", Evict: false, Backlog: 5, Timeout: -1},
 	}
 }
 
@@ -59,7 +69,7 @@ func run(t *testing.T, idx int64, r *rand.Rand, kindIdx, cmIdx, amIdx int, exhau
 	expectGrant := false
 	var busyBefore, busyAfter int
 	viaDeadline := false
-	slow := k.Family == "queue" && cm == "none" && exhausted && r.IntN(2) == 0
+	slow := k.Family == "queue" && k.Timeout > 0 && cm == "none" && exhausted && r.IntN(2) == 0
 	slowBy := T/4 + time.Duration(r.Int64N(int64(T)))
 	var pushedAt time.Duration
 	rt.Scenario(fmt.Sprintf("C13/%s", k), idx, rt.J{"kind": k, "cancel_mode": cm, "arrival": am, "capacity_exhausted": exhausted})
@@ -82,7 +92,9 @@ func run(t *testing.T, idx int64, r *rand.Rand, kindIdx, cmIdx, amIdx int, exhau
 		var bound time.Duration // 0 = none
 		switch k.Family {
 		case "queue":
-			bound = arrive + T
+			if k.Timeout > 0 {
+				bound = arrive + T
+			}
 		case "deadline":
 			bound = T
 			if arrive > T {
@@ -399,6 +411,110 @@ func twoWaiters(t *testing.T, idx int64, r *rand.Rand, kindIdx int) {
 	rt.Distinct(fmt.Sprintf("two|%s|%v|%v|%v", k, a, rel, cancelAt))
 }
 
+
+// farDeadline: deadline limiters whose deadline is an "effectively never" instant (beyond what fits into 64-bit
+// nanoseconds since 1970).  Such a deadline is a bound like any other: free capacity is granted, a blocked call
+// does not return before its context ends or capacity is offered, and then returns at that instant.
+func farDeadline(t *testing.T, idx int64, r *rand.Rand) {
+	names := []string{"now+MaxInt64ns", "9999-12-31", "2263-01-01", "2500-01-01", "unix(1<<40)", "now+290y"}
+	which := r.IntN(len(names))
+	exhausted := r.IntN(4) != 0
+	end := []string{"cancel", "context-deadline", "release"}[r.IntN(3)]
+	wait := time.Duration(1 + r.Int64N(int64(3*time.Hour)))
+	sig := ""
+	var detail rt.J
+	bubble(t, func(t *testing.T) {
+		start := time.Now()
+		far := []time.Time{start.Add(time.Duration(math.MaxInt64)), time.Date(9999, 12, 31, 0, 0, 0, 0, time.UTC), time.Date(2263, 1, 1, 0, 0, 0, 0, time.UTC),
+			time.Date(2500, 1, 1, 0, 0, 0, 0, time.UTC), time.Unix(1<<40, 0), start.Add(290 * 365 * 24 * time.Hour)}[which]
+		dl, err := limiter.NewDefaultLimiter(limit.NewFixedLimit("c13", 1, nil), 1e9, 1e9, 1e5, 100, strategy.NewSimpleStrategy(1), limit.NoopLimitLogger{}, core.EmptyMetricRegistryInstance)
+		if err != nil {
+			panic(err)
+		}
+		lim := limiter.NewDeadlineLimiter(dl, far, nil)
+		fail := func(s string, d rt.J) {
+			if sig == "" {
+				sig, detail = s, d
+			}
+		}
+		first, ok := lim.Acquire(context.Background())
+		if !ok || first == nil {
+			fail("free-capacity-refused-long-before-the-deadline", rt.J{})
+			return
+		}
+		if !exhausted {
+			first.OnSuccess()
+			return
+		}
+		ctx, cancel := context.WithCancel(context.Background())
+		if end == "context-deadline" {
+			ctx, cancel = context.WithDeadline(context.Background(), start.Add(wait))
+		}
+		defer cancel()
+		var done atomic.Bool
+		var gotOK bool
+		var got core.Listener
+		var at time.Duration
+		go func() {
+			got, gotOK = lim.Acquire(ctx)
+			at = time.Since(start)
+			done.Store(true)
+		}()
+		synctest.Wait()
+		if done.Load() {
+			fail("returned-before-its-bound/far-deadline", rt.J{"returned_at": at.String(), "ok": gotOK})
+			first.OnSuccess()
+			return
+		}
+		time.Sleep(wait - 1)
+		synctest.Wait()
+		if done.Load() {
+			fail("returned-before-its-bound/far-deadline", rt.J{"returned_at": at.String(), "ok": gotOK})
+			first.OnSuccess()
+			return
+		}
+		time.Sleep(1)
+		switch end {
+		case "cancel":
+			cancel()
+		case "release":
+			first.OnSuccess()
+			first = nil
+		}
+		synctest.Wait()
+		switch {
+		case !done.Load():
+			fail("blocked-past-its-bound/far-deadline", rt.J{"ended_by": end})
+		case at != wait:
+			fail("returned-at-the-wrong-instant/far-deadline", rt.J{"returned_at": at.String(), "expected": wait.String()})
+		case end == "release" && (!gotOK || got == nil):
+			fail("offered-capacity-not-granted/far-deadline", rt.J{})
+		case end != "release" && (gotOK || got != nil):
+			fail("granted-although-bound-reached-without-capacity", rt.J{})
+		}
+		cancel()
+		if got != nil {
+			got.OnSuccess()
+		}
+		if first != nil {
+			first.OnSuccess()
+		}
+		synctest.Wait()
+		// one more completion broadcasts to whatever helper is still subscribed
+		if l, ok := lim.Acquire(context.Background()); ok {
+			l.OnIgnore()
+		}
+		synctest.Wait()
+	})
+	rt.Count("far_deadline_scenarios", 1)
+	if sig != "" {
+		detail["deadline"], detail["capacity_exhausted"], detail["wait"], detail["ended_by"] = names[which], exhausted, wait.String(), end
+		rt.Violation("C13/deadline/"+sig, idx, detail)
+		return
+	}
+	rt.Distinct(fmt.Sprintf("far|%s|%v|%s|%v", names[which], exhausted, end, wait))
+}
+
 // spawnCancelled starts a caller whose context is cancelled before Acquire is called.
 func spawnCancelled(w *blk.World) *blk.Waiter {
 	wt := w.SpawnWith(func(ctx context.Context, cancel context.CancelFunc) { cancel() })
@@ -415,7 +531,7 @@ func TestCheck(t *testing.T) {
 		ex      bool
 	}
 	var cells []cell
-	for k := 0; k < 7; k++ {
+	for k := 0; k < 9; k++ {
 		for c := 0; c < 6; c++ {
 			for a := 0; a < 3; a++ {
 				if a > 0 && k != 2 {
@@ -430,6 +546,10 @@ func TestCheck(t *testing.T) {
 		rt.Case()
 		if idx%9 == 8 {
 			twoWaiters(t, idx, r, r.IntN(7))
+			return
+		}
+		if idx%45 == 7 {
+			farDeadline(t, idx, r)
 			return
 		}
 		c := cells[int(idx)%len(cells)]
